@@ -72,8 +72,12 @@ BlocksN(n, d) ==
   IF n = 0 THEN {<<>>}
   ELSE UNION {{<<s>> \o r : s \in StmtsN(m, d), r \in BlocksN(n - m, d)} : m \in 1..n}
 
+(* "enum": every tree within the bound, plus the hand-picked larger trees of *)
+(* LayoutVocab!ExtraTrees (multi-statement blocks before `else`/`where`,     *)
+(* the three-hole if chain, domain-like nests) that the bound leaves out.    *)
 Trees == IF TreeSource = "progs" THEN {ProgTrees[i] : i \in 1..Len(ProgTrees)}
          ELSE UNION {BlocksN(n, MaxDepth - 1) : n \in 1..MaxN}
+              \cup (IF TreeSource = "enum+extra" THEN {ExtraTrees[i] : i \in 1..Len(ExtraTrees)} ELSE {})
 
 RECURSIVE BlockSize(_)
 BlockSize(b) == FoldLeft(LAMBDA acc, s : acc + 1 + FoldLeft(LAMBDA a2, bb : a2 + BlockSize(bb), 0, s.bl), 0, b)
@@ -266,7 +270,10 @@ Lead(ind, tabs, i) ==
     [] tabs = "tabs"   -> Rep("t", ind \div 8) \o Rep("s", ind % 8)
     [] tabs = "mixed"  -> IF ind >= 8 THEN <<"s", "s", "s", "t">> \o Rep("t", (ind \div 8) - 1) \o Rep("s", ind % 8)
                           ELSE Rep("s", ind)
-    [] tabs = "alt"    -> IF i % 2 = 0 THEN Rep("s", ind) ELSE Rep("t", ind \div 8) \o Rep("s", ind % 8)
+    [] tabs = "alt"    -> \* line by line a different way to reach the same column
+                          IF i % 3 = 0 THEN Rep("s", ind)
+                          ELSE IF i % 3 = 1 \/ ind < 8 THEN Rep("t", ind \div 8) \o Rep("s", ind % 8)
+                          ELSE <<"s", "s", "s", "t">> \o Rep("t", (ind \div 8) - 1) \o Rep("s", ind % 8)
 (* include.c:inclCalcIndentLevel on the codes *)
 IndentLevel(lead) == FoldLeft(LAMBDA i, c : IF c = "s" THEN i + 1 ELSE ((i \div 8) + 1) * 8, 0, lead)
 
@@ -325,8 +332,9 @@ ScanReport(got, want) ==
   LET i == ScanDiffAt(got, want)
       sp(tl) == [j \in 1..Len(tl) |-> tl[j].t]
       win(tl) == SubSeq(sp(tl), i, IF i + 1 <= Len(tl) THEN i + 1 ELSE Len(tl))
-  IN IF i = 0 THEN [ok |-> TRUE, want |-> <<>>, got |-> <<>>, column |-> FALSE]
+  IN IF i = 0 THEN [ok |-> TRUE, want |-> <<>>, got |-> <<>>, gotkind |-> "", column |-> FALSE]
      ELSE [ok |-> FALSE, want |-> win(want), got |-> win(got),
+           gotkind |-> IF i <= Len(got) THEN got[i].k ELSE "end",
            column |-> i <= Len(got) /\ i <= Len(want) /\ got[i].k = want[i].k /\ got[i].t = want[i].t]
 
 ---------------------------------------------------------------------------
@@ -373,7 +381,7 @@ VARIABLES tree, sty, stage, lines, tl, bal, node, strm, scan
 vars == <<tree, sty, stage, lines, tl, bal, node, strm, scan>>
 
 NoStreams == [starting |-> <<>>, ending |-> <<>>, mid |-> <<>>, leaving |-> <<>>]
-NoScan    == [ok |-> TRUE, want |-> <<>>, got |-> <<>>, column |-> FALSE]
+NoScan    == [ok |-> TRUE, want |-> <<>>, got |-> <<>>, gotkind |-> "", column |-> FALSE]
 
 Init == /\ tree \in Trees
         /\ sty \in Styles(tree)
